@@ -411,6 +411,11 @@ func (f *Fixture) Message(e Ev, offset int) storage.Message {
 		ev = string(sif.EventSigningPartialSignReceived)
 		bid, tasks := f.batchRef(e.Batch)
 		r := requests.SigningProposalBatchPartialSignRequests{BatchID: bid, ParticipantId: e.Pid, CreatedAt: at}
+		if e.Empty && (e.Pid+len(f.BatchIDs))%2 == 0 {
+			// an empty list that is present ("[]", what a machine that signed nothing
+			// writes) as opposed to an absent one ("null")
+			r.PartialSigns = []requests.PartialSign{}
+		}
 		if !e.Empty {
 			for _, tk := range tasks {
 				var sg []byte
